@@ -701,7 +701,6 @@ func parseEntryPoints(env *engine.Env, text string) map[string]error {
 	return res
 }
 
-
 // respell rewrites the line "<key>: x" of a rendered document in another YAML spelling of the same mapping key.
 func respell(text, key, syntax string) (string, bool) {
 	re := regexp.MustCompile(`(?m)^(\s*(?:- )?)` + regexp.QuoteMeta(key) + `: x$`)
